@@ -40,7 +40,7 @@ RULE = (
     "URI, URI passed dynamically (quick: every URI x every depth, kind rotating; thorough: x every kind) or written "
     "literally into the caller (strided sample + hypothesis). Configurations: module_directory on/off x one/two roots "
     "x root spellings {plain, trailing /, /./ and /., x/../ and sub/.., relative ./root/, cwd '.', // prefix} (quick: "
-    "7 of the 28, thorough: all 28). non-trivial = the URI contains '..', a backslash or a doubled/leading separator "
+    "4 of the 28 for the full sweep and 3 more for the families, thorough: all 28). non-trivial = the URI contains '..', a backslash or a doubled/leading separator "
     "AND a naive join+normpath of it (raw, backslash-mapped, leading-separator-stripped) against a root or the "
     "caller's directory lands on an existing file outside every configured root, i.e. the escape would succeed "
     "without the guard; distinct by URI string (fingerprints)."
@@ -352,14 +352,18 @@ class Env:
             key = (kind, depth, cspell)
             t = self.callers.get(key)
             if t is None:
-                t = self.callers[key] = self.Lc.get_template(self.caller_uri("c_%s.html" % kind, depth, cspell))
-            return t
+                # the caller's own lookup is gated as well: a broken tree must not write module files anywhere
+                st, t = self.gated(self.Lc.get_template, self.caller_uri("c_%s.html" % kind, depth, cspell))
+                if st != "ok":
+                    return st, t
+                self.callers[key] = t
+            return "ok", t
         self.nlit += 1
         name = "cl%d_%s.html" % (self.nlit, kind)
         path = os.path.join(self.T, "root", *(["sub"] * depth), name)
         self._write(path, literal_caller(kind, literal_uri))
         self.snapshot.add(path)
-        return self.Lc.get_template(self.caller_uri(name, depth, cspell))
+        return self.gated(self.Lc.get_template, self.caller_uri(name, depth, cspell))
 
     # -- non-trivial rule: naive resolution lands on an existing outside file --
     def naive_outside(self, uri, caller_dir=None):
@@ -419,17 +423,32 @@ def _case(env, step):
     return {"cfg": env.cfg, "steps": [step]}
 
 
-def _events_failure(env, case, what):
-    if not env.events:
-        return
+def _rel_events(env):
     evs = list(env.events)
     del env.events[:]
-    rel = [(k, e, p[len(env.top):] if p.startswith(env.top) else p) for k, e, p in evs]
-    if any(k == "write-outside" for k, _, _ in evs):
-        raise Failure(case, "%s: file-system modification outside module_directory (blocked): %r" % (what, rel[:4]),
-                      "audit:write-outside-module-directory")
-    raise Failure(case, "%s: opened a file outside the configured directories: %r" % (what, rel[:4]),
-                  "audit:outside-file-opened")
+    return [(k, e, p[len(env.top):] if p.startswith(env.top) else p) for k, e, p in evs]
+
+
+def _fail(env, case, detail, key):
+    """raise the Failure for an escape symptom; audit observations of the same step go into the detail"""
+    rel = _rel_events(env)
+    if rel:
+        detail += " [audit: %r]" % (rel[:4],)
+    raise Failure(case, detail, key)
+
+
+def _audit_failure(env, case, what):
+    """Symptom order within one step is fixed (returned template outside > marker in output/source > audited
+    read > audited write > other exception) so that the key of a failure does not depend on what an earlier step
+    left in the lookup's cache."""
+    if not env.events:
+        return
+    rel = _rel_events(env)
+    if any(k == "read-outside" for k, _, _ in rel):
+        raise Failure(case, "%s: opened a file outside the configured directories: %r" % (what, rel[:4]),
+                      "audit:outside-file-opened")
+    raise Failure(case, "%s: file-system modification outside module_directory (blocked by the harness): %r"
+                  % (what, rel[:4]), "audit:write-outside-module-directory")
 
 
 def _lookup_label(e):
@@ -440,24 +459,21 @@ def _check_template(env, case, what, t):
     from mako.template import Template
 
     if not isinstance(t, Template):
-        raise Failure(case, "%s returned %r, not a Template" % (what, type(t)), "returned-non-template")
+        _fail(env, case, "%s returned %r, not a Template" % (what, type(t)), "returned-non-template")
     fn = t.filename
     if fn is None or not env.inside(fn):
-        raise Failure(case, "%s returned a Template with filename %r (realpath %r), outside the configured roots %r"
-                      % (what, fn, fn and os.path.realpath(fn)[len(env.top):], env.dirs), "escape:template-outside-roots")
+        _fail(env, case, "%s returned a Template with filename %r (realpath %r), outside the configured roots %r"
+              % (what, fn, fn and os.path.realpath(fn)[len(env.top):], env.dirs), "escape:template-outside-roots")
     st, out = env.gated(t.render_unicode)
-    _events_failure(env, case, what + " + render")
-    if st == "ok":
-        if MARK in out:
-            raise Failure(case, "%s: rendered output %r contains the outside marker" % (what, out[:80]),
-                          "escape:marker-in-output")
-    elif st != "tle":
+    if st == "ok" and MARK in out:
+        _fail(env, case, "%s: rendered output %r contains the outside marker" % (what, out[:80]), "escape:marker-in-output")
+    st2, src = env.gated(lambda: t.source)
+    if st2 == "ok" and src is not None and MARK in src:
+        _fail(env, case, "%s: Template.source contains the outside marker" % what, "escape:marker-in-source")
+    _audit_failure(env, case, what + " + render + .source")
+    if st not in ("ok", "tle"):
         raise Failure(case, "%s: rendering the returned template raised %s: %s" % (what, type(out).__name__, out),
                       "other-exception:render:" + type(out).__name__)
-    st, src = env.gated(lambda: t.source)
-    _events_failure(env, case, what + " + .source")
-    if st == "ok" and src is not None and MARK in src:
-        raise Failure(case, "%s: Template.source contains the outside marker" % what, "escape:marker-in-source")
 
 
 def run_step(env, step, ev):
@@ -465,41 +481,41 @@ def run_step(env, step, ev):
     mode = step["mode"]
     uri = env.expand(step)
     case = _case(env, step)
+    del env.events[:]
     if mode == "direct":
         nt = env.naive_outside(uri)
         st, r = env.gated(env.Lg.get_template, uri)
         what = "get_template(%r)" % uri
-        _events_failure(env, case, what)
         if st == "ok":
             _check_template(env, case, what, r)
             lab = "served-inside"
-        elif st == "tle":
+        _audit_failure(env, case, what)
+        if st == "tle":
             lab = _lookup_label(r)
-        else:
+        elif st != "ok":
             raise Failure(case, "%s raised %s: %s (expected TemplateLookupException or a Template)"
                           % (what, type(r).__name__, r), "other-exception:get_template:" + type(r).__name__)
         ev.case(key=uri, nontrivial=nt, labels=("direct:" + lab,) + (("nontrivial:direct:" + lab,) if nt else ()))
         # has_template on an independent lookup of the same configuration
         st, r = env.gated(env.Lh.has_template, uri)
         what = "has_template(%r)" % uri
-        _events_failure(env, case, what)
-        if st == "ok":
-            if r is True:
-                st2, t2 = env.gated(env.Lh.get_template, uri)
-                _events_failure(env, case, what + " -> get_template")
-                if st2 == "ok":
-                    _check_template(env, case, what + " is True; get_template", t2)
-                elif st2 != "tle":
-                    raise Failure(case, "%s True, then get_template raised %s: %s" % (what, type(t2).__name__, t2),
-                                  "other-exception:get_template:" + type(t2).__name__)
-                hl = "true"
-            elif r is False:
-                hl = "false"
-            else:
-                raise Failure(case, "%s returned %r" % (what, r), "returned-non-bool")
-        else:
+        if st == "ok" and r is True:
+            st2, t2 = env.gated(env.Lh.get_template, uri)
+            if st2 == "ok":
+                _check_template(env, case, what + " is True; get_template", t2)
+            _audit_failure(env, case, what + " is True; get_template")
+            if st2 not in ("ok", "tle"):
+                raise Failure(case, "%s True, then get_template raised %s: %s" % (what, type(t2).__name__, t2),
+                              "other-exception:get_template:" + type(t2).__name__)
+            hl = "true"
+        _audit_failure(env, case, what)
+        if st != "ok":
             raise Failure(case, "%s raised %s: %s (expected a bool)" % (what, type(r).__name__, r),
                           "other-exception:has_template:" + type(r).__name__)
+        if r is False:
+            hl = "false"
+        elif r is not True:
+            raise Failure(case, "%s returned %r" % (what, r), "returned-non-bool")
         ev.case(key=uri, nontrivial=nt, labels=("has_template:" + hl,))
         return lab
     if mode == "caller":
@@ -508,7 +524,14 @@ def run_step(env, step, ev):
             return "rejected"
         kind, depth, cspell = step["kind"], step["depth"], step.get("cspell", 0)
         literal = bool(step.get("literal"))
-        t = env.caller(kind, depth, cspell, uri if literal else None)
+        st, t = env.caller(kind, depth, cspell, uri if literal else None)
+        _audit_failure(env, case, "loading the calling template for %s at depth %d" % (kind, depth))
+        if st != "ok":
+            # only a broken tree gets here; run() turns this into a harness error if nothing else was found
+            ev.label("caller-unavailable")
+            ev.notes["caller_unavailable_example"] = "%s: %s" % (type(t).__name__, t)
+            ev.rejected += 1
+            return "rejected"
         cdir = posixpath.dirname(env.caller_uri("x", depth, cspell).replace("\\", "/")).lstrip("/")
         nt = env.naive_outside(uri, cdir)
         what = "%s of %r from caller %r%s" % (kind, uri, t.uri, " (literal)" if literal else "")
@@ -516,10 +539,10 @@ def run_step(env, step, ev):
             st, r = env.gated(t.render_unicode)
         else:
             st, r = env.gated(t.render_unicode, u=uri)
-        _events_failure(env, case, what)
+        if st == "ok" and MARK in r:
+            _fail(env, case, "%s: output %r contains the outside marker" % (what, r[:80]), "escape:marker-in-output")
+        _audit_failure(env, case, what)
         if st == "ok":
-            if MARK in r:
-                raise Failure(case, "%s: output %r contains the outside marker" % (what, r[:80]), "escape:marker-in-output")
             if "INSIDE" not in r:
                 raise core.HarnessError("caller produced neither inside nor outside content: %r -> %r" % (case, r))
             lab = "served-inside"
@@ -633,12 +656,15 @@ def _steps_for(task):
         raise core.HarnessError("unknown family %r" % fam)
     seen = set()
     i = 0
+    part, of = task.get("split", (0, 1))
     for base in gen:
         k = (base["uri"], base.get("tsep"))
         if k in seen:
             continue
         seen.add(k)
         i += 1
+        if i % of != part:
+            continue
         if "direct" in routes:
             yield dict(base, mode="direct")
         if "callers" in routes:  # every depth, kind and caller spelling rotating
@@ -748,14 +774,16 @@ def shard_random(task):
 
 SHARDS = {"sweep": shard_sweep}
 
-QUICK_CFGS = [
+QUICK_CFGS = [  # direct sweep in the quick tier
     {"spell": "plain", "mod": True, "two": False},
-    {"spell": "plain", "mod": False, "two": False},
     {"spell": "trailing", "mod": True, "two": True},
     {"spell": "relative", "mod": False, "two": False},
-    {"spell": "dotdot", "mod": True, "two": False},
     {"spell": "cwd", "mod": False, "two": True},
-    {"spell": "dslash", "mod": True, "two": True},
+]
+QUICK_FAM_CFGS = [  # structured families in the quick tier: the remaining root spellings
+    {"spell": "dotdot", "mod": True, "two": False},
+    {"spell": "dslash", "mod": False, "two": True},
+    {"spell": "dot", "mod": True, "two": True},
 ]
 DEFAULT_CFG = QUICK_CFGS[0]
 SECOND_CFG = {"spell": "trailing", "mod": False, "two": True}
@@ -765,11 +793,27 @@ def all_cfgs():
     return [{"spell": s, "mod": m, "two": t} for s in SPELLS for m in (True, False) for t in (False, True)]
 
 
-def _sweep_tasks(cfg, nmax, routes, **extra):
+def _sweep_tasks(cfg, nmax, routes, split=1, **extra):
     tasks = [dict(cfg=cfg, fam="sweep", arg=[n, None], routes=routes, **extra) for n in (1, 2)]
     for n in range(3, nmax + 1):
-        tasks += [dict(cfg=cfg, fam="sweep", arg=[n, s0], routes=routes, **extra) for s0 in SEGS]
+        tasks += [dict(cfg=cfg, fam="sweep", arg=[n, s0], routes=routes, split=[j, split], **extra)
+                  for s0 in SEGS for j in range(split)]
     return tasks
+
+
+def _cost(task):
+    """rough relative cost of a sweep task, to start the long ones first"""
+    per = {"direct": 2, "callers": 10, "callers-all": 70, "literal": 1}
+    w = sum(per[r] for r in task["routes"])
+    if task["fam"] == "sweep":
+        n = task["arg"][0]
+        size = len(SEGS) ** (n - 1 if task["arg"][1] is not None else n) * len(SEPS) ** (n - 1)
+        size /= task.get("split", (0, 1))[1]
+    elif task["fam"] == "climb":
+        size = 3000
+    else:
+        size = 300
+    return -w * size
 
 
 def run(ctx):
@@ -786,27 +830,29 @@ def run(ctx):
             for cfg in (DEFAULT_CFG, SECOND_CFG):
                 big += [dict(cfg=cfg, fam="sweep", arg=[4, s0], routes=["direct"]) for s0 in SEGS]
     if want("families"):
-        fam_cfgs = QUICK_CFGS[:3] if ctx.quick else all_cfgs()
+        fam_cfgs = QUICK_FAM_CFGS if ctx.quick else all_cfgs()
         for cfg in fam_cfgs:
             tasks += [dict(cfg=cfg, fam="climb", arg=[i, 4], routes=["direct", "callers"]) for i in range(4)]
             tasks.append(dict(cfg=cfg, fam="abs", routes=["direct", "callers"]))
     if want("callers"):
         if ctx.quick:
-            for cfg in (QUICK_CFGS[0], QUICK_CFGS[5]):
-                tasks += _sweep_tasks(cfg, 3, ["callers"])
+            tasks += _sweep_tasks(QUICK_CFGS[0], 3, ["callers"], split=2)
         else:
-            for cfg in (QUICK_CFGS[0], SECOND_CFG, QUICK_CFGS[3], QUICK_CFGS[6]):
-                tasks += _sweep_tasks(cfg, 3, ["callers-all"])
+            for cfg in (QUICK_CFGS[0], SECOND_CFG, QUICK_CFGS[3], QUICK_FAM_CFGS[1]):
+                tasks += _sweep_tasks(cfg, 3, ["callers-all"], split=8)
     if want("literal"):
         # strided sample of the product URI x kind x depth with the URI written into the calling template
         stride = ctx.pick(797, 71)
         for cfg in (QUICK_CFGS[0], QUICK_CFGS[2]):
             tasks += _sweep_tasks(cfg, 3, ["literal"], stride=stride, offset=ctx.seed % stride)
     # longest tasks first
-    ctx.pmap(shard_sweep, big + tasks)
+    ctx.pmap(shard_sweep, sorted(big + tasks, key=_cost))
     if want("random"):
         n = ctx.pick(250, 5000)
         ctx.pmap(shard_random, [(ctx.shard_seed(i, "random"), n) for i in range(16)])
+    if ev.labels.get("caller-unavailable") and not ctx.failures:
+        raise core.HarnessError("calling templates could not be loaded %d times (%s) and no violation was found"
+                                % (ev.labels["caller-unavailable"], ev.notes.get("caller_unavailable_example")))
     ev.exhaustive = True
     ev.notes["exhaustive_domains"] = (
         "all URIs of <=3 segments (11 segments x 3 separators x 6 leads x 2 trails = %d strings incl. duplicates) for "
